@@ -6,6 +6,10 @@
 (*          afterwards, by identity), primary (INQUIRY / TEST UNIT READY /      *)
 (*          REPORT LUNS resolvable with their T10 codes), devtype, others       *)
 (*          (dev -> set name of every other device)]                            *)
+(*         [ev |-> "probe", set, code ("9E" | "A3"), sent (first CDB byte of every  *)
+(*          command the target saw while the facade was asked for a command it      *)
+(*          finds by operation code)]: exactly what the set of the device attached    *)
+(*          now offers, whatever was attached before                                   *)
 (* state: what every device carried before (sel), what a type selected the      *)
 (* first time (first): a later attach of the same type must select the same.    *)
 (***************************************************************************)
@@ -13,6 +17,9 @@ EXTENDS AttachRules, Json, IOUtils
 Trace == JsonDeserialize(IOEnv.TRACE_FILE)
 VARIABLES l, sel, first
 
+JudgeProbe(e) ==
+    IF e.sent = ProbeExpected(e.set, e.code) THEN {}
+    ELSE {<<"NoLeakAcrossAttach", "probe " \o e.code \o " on " \o e.set>>}
 Judge(e) ==
     (IF Len(e.cdbs) # 1 THEN {<<"OneInquiryPerAttach", ToString(Len(e.cdbs))>>}
      ELSE IF ~IsStdInquiry(e.cdbs[1]) THEN {<<"OneInquiryPerAttach", "not a standard INQUIRY">>} ELSE {})
@@ -28,6 +35,9 @@ TInit == l = 1 /\ sel = [x \in {} |-> ""] /\ first = [x \in {} |-> ""]
 Step == /\ l <= Len(Trace)
         /\ LET e == Trace[l] IN
            IF e.ev = "reset" THEN sel' = [x \in {} |-> ""] /\ UNCHANGED first
+           ELSE IF e.ev = "probe" THEN
+                /\ \A v \in JudgeProbe(e) : PrintT(<<"VERDICT", ToJson([i |-> l, clause |-> v[1], detail |-> v[2]])>>)
+                /\ UNCHANGED <<sel, first>>
            ELSE /\ \A v \in Judge(e) : PrintT(<<"VERDICT", ToJson([i |-> l, clause |-> v[1], detail |-> v[2]])>>)
                 /\ sel' = [d \in DOMAIN sel \cup {e.dev} |-> IF d = e.dev THEN e.set ELSE sel[d]]
                 /\ first' = IF e.fresh /\ e.type \notin DOMAIN first
